@@ -30,11 +30,12 @@ def sps():
     """N state points {"k": i, "salt": s} whose ids all start with the same hex digit (so that abbreviated ids collide)."""
     key = (_N, _SALT)
     if key not in _POINTS_CACHE:
-        pts = [{"k": 0, "salt": _SALT}]
+        uni = "r\udce9\u00e9\U0001f600"  # non-ASCII incl. a lone surrogate (os.fsdecode of a Latin-1 file name); same in every point
+        pts = [{"k": 0, "salt": _SALT, "u": uni}]
         first = canon.job_id(pts[0])[0]
         i = 1
         while len(pts) < _N:
-            cand = {"k": i, "salt": _SALT}
+            cand = {"k": i, "salt": _SALT, "u": uni}
             if canon.job_id(cand)[0] == first:
                 pts.append(cand)
             i += 1
@@ -366,7 +367,53 @@ def _thread_item(item):
                          "thread_harnesses_without_controlled_pool": int(res["pools_seen"] == 0)}}
 
 
+def _scale_item(item):
+    """Many uncached jobs at once (the state points are read in chunks): update_cache must list every one of them, and a
+    second call must have nothing to do."""
+    import signac
+
+    _, n_jobs, salt = item
+    viol = []
+    with scratch.fresh("c08s") as d:
+        p0 = signac.init_project(d)
+        want = {}
+        for i in range(n_jobs):
+            sp = {"i": i, "salt": salt}
+            p0.open_job(sp).init()
+            want[canon.job_id(sp)] = sp
+        p = signac.Project(d)
+        ret = p.update_cache()
+        content = read_cache_file(d)
+        if content is None or set(content) != set(want) or any(content[k] != want[k] for k in want):
+            missing = sorted(set(want) - set(content or {}))
+            viol.append({"sig": {"kind": "update-cache-not-exact", "scale": True, "missing": bool(missing)}, "scenario": "scale",
+                         "input": {"scale": True, "n_jobs": n_jobs, "salt": salt}, "expected": n_jobs,
+                         "observed": None if content is None else len(content),
+                         "msg": f"{n_jobs} uncached jobs: update_cache() returned {ret!r}, the cache file lists "
+                                f"{None if content is None else len(content)} ids ({len(missing)} missing)"})
+        else:
+            ret2 = p.update_cache()
+            if ret2 is not None:
+                viol.append({"sig": {"kind": "update-cache-second-call-not-noop", "scale": True}, "scenario": "scale",
+                             "input": {"scale": True, "n_jobs": n_jobs, "salt": salt}, "expected": None, "observed": repr(ret2),
+                             "msg": f"{n_jobs} jobs: an immediate second update_cache() returned {ret2!r}"})
+            got = sorted(j.id for j in signac.Project(d).find_jobs({"i": {"$gte": n_jobs - 3}}))
+            exp = sorted(k for k, v in want.items() if v["i"] >= n_jobs - 3)
+            if got != exp:
+                viol.append({"sig": {"kind": "cache-not-transparent", "scale": True}, "scenario": "scale",
+                             "input": {"scale": True, "n_jobs": n_jobs, "salt": salt}, "expected": exp, "observed": got,
+                             "msg": f"{n_jobs} jobs: query through the cache gives {got}, expected {exp}"})
+    return {"cls": f"scale:{n_jobs}", "viol": viol, "n": 3, "nt": f"scale|{n_jobs}"}
+
+
+def _thread_or_scale(item):
+    return _scale_item(item) if item and item[0] == "scale" else _thread_item(item)
+
+
 def _thread_items(ctx):
+    # workspace sizes around the chunking boundaries of the state point reader (chunks only exist above 2000 jobs)
+    for n_jobs in ((2001,) if ctx.quick else (1999, 2001, 3001, 4567)):
+        yield ("scale", n_jobs, ctx.seed)
     import itertools
     n = 3 if ctx.quick else 4
     idx = range(n)
@@ -394,7 +441,7 @@ def run(ctx):
     if not st.closed:
         report.harness_errors.append("state space did not close within the depth guard")
     from .. import engine_i
-    tot = engine_i.run_items(ctx, _thread_items(ctx), _thread_item, chunk=1)
+    tot = engine_i.run_items(ctx, _thread_items(ctx), _thread_or_scale, chunk=1)
     report.violations.extend(tot.viol)
     report.harness_errors.extend(tot.herr)
     report.coverage["threads"] = dict(tot.counters, rule="engine T: every interleaving with <= 2 preemptions of the pool threads "
@@ -410,6 +457,8 @@ def replay(payload, ctx):
     global _N, _SALT
     _N = payload["input"].get("n_statepoints", 2)
     _SALT = payload["input"].get("salt", 0)
+    if payload["input"].get("scale"):
+        return _scale_item(("scale", payload["input"]["n_jobs"], payload["input"].get("salt", 0)))["viol"]
     if payload["input"].get("threads"):
         i = payload["input"]
         return _thread_item((tuple(i["present"]), tuple(i["cached"]), i["bound"], i["salt"], i["n_statepoints"]))["viol"]
